@@ -1,12 +1,15 @@
-use std::num::NonZeroU8;
+use std::num::NonZeroUsize;
 
 use crate::{Error, KeyName};
 
-pub fn validate<K: KeyName + ?Sized>(s: &str) -> Result<NonZeroU8, Error> {
+/// Validates a key ID and returns the index of the colon that separates the algorithm from the
+/// key name.
+pub fn validate<K: KeyName + ?Sized>(s: &str) -> Result<NonZeroUsize, Error> {
+    // The index must not be truncated: key IDs can be longer than 255 bytes.
     let colon_idx =
-        NonZeroU8::new(s.find(':').ok_or(Error::MissingColon)? as u8).ok_or(Error::MissingColon)?;
+        NonZeroUsize::new(s.find(':').ok_or(Error::MissingColon)?).ok_or(Error::MissingColon)?;
 
-    K::validate(&s[colon_idx.get() as usize + 1..])?;
+    K::validate(&s[colon_idx.get() + 1..])?;
 
     Ok(colon_idx)
 }
